@@ -276,11 +276,25 @@ impl StoreTransaction {
                 Into::<packed::HeaderView>::into(uncle.header()).as_slice(),
             )?;
         }
-        self.insert_raw(COLUMN_INDEX, block_hash.as_slice(), block_number.as_slice())
+        self.insert_raw(COLUMN_INDEX, block_hash.as_slice(), block_number.as_slice())?;
+        // the epoch-number index follows the main chain: point it at this block's epoch when the
+        // block is the first one of that epoch
+        if let Some(epoch) = self.get_block_epoch(&block_hash)
+            && epoch.start_number() == block.number()
+        {
+            self.insert_epoch_index(&epoch)?;
+        }
+        Ok(())
     }
 
     /// Detaches a block from the main chain, removing its transaction and uncle indices.
     pub fn detach_block(&self, block: &BlockView) -> Result<(), Error> {
+        if let Some(epoch) = self.get_block_epoch(&block.hash())
+            && epoch.start_number() == block.number()
+        {
+            let epoch_number: packed::Uint64 = epoch.number().into();
+            self.delete(COLUMN_EPOCH, epoch_number.as_slice())?;
+        }
         for tx_hash in block.tx_hashes().iter() {
             self.delete(COLUMN_TRANSACTION_INFO, tx_hash.as_slice())?;
         }
@@ -305,15 +319,34 @@ impl StoreTransaction {
         )
     }
 
-    /// Inserts epoch extension data.
+    /// Inserts epoch extension data and points the epoch-number index at it.
     pub fn insert_epoch_ext(&self, hash: &packed::Byte32, epoch: &EpochExt) -> Result<(), Error> {
+        self.insert_epoch_ext_only(hash, epoch)?;
+        let epoch_number: packed::Uint64 = epoch.number().into();
+        self.insert_raw(COLUMN_EPOCH, epoch_number.as_slice(), hash.as_slice())
+    }
+
+    /// Inserts epoch extension data without touching the epoch-number index, which must only
+    /// name epochs of the main chain (it is maintained by `attach_block` / `detach_block`).
+    pub fn insert_epoch_ext_only(
+        &self,
+        hash: &packed::Byte32,
+        epoch: &EpochExt,
+    ) -> Result<(), Error> {
         self.insert_raw(
             COLUMN_EPOCH,
             hash.as_slice(),
             Into::<packed::EpochExt>::into(epoch).as_slice(),
-        )?;
+        )
+    }
+
+    fn insert_epoch_index(&self, epoch: &EpochExt) -> Result<(), Error> {
         let epoch_number: packed::Uint64 = epoch.number().into();
-        self.insert_raw(COLUMN_EPOCH, epoch_number.as_slice(), hash.as_slice())
+        self.insert_raw(
+            COLUMN_EPOCH,
+            epoch_number.as_slice(),
+            epoch.last_block_hash_in_previous_epoch().as_slice(),
+        )
     }
 
     /// Inserts the current epoch extension data.
